@@ -21,12 +21,13 @@ Record answer := mkAns { an_k : nat; an_Q : arr2; an_R : arr2; an_A : arr2 }.   
 
 Definition qtolR : Q := 1 # 100000.
 Definition close_q (x y : Q) : bool := Qle_bool (Qabs (x - y)) (qtolR * (1 + Qabs x)).
-(* matrices are compared relative to their largest entry (the implementation's round-off scales with it) *)
+(* matrices are compared relative to their largest entry (the implementation's round-off scales with it; a zero matrix
+   must be reproduced exactly) *)
 Definition maxabs_q (l : list Q) : Q := fold_right (fun x acc => if Qle_bool acc (Qabs x) then Qabs x else acc) 0 l.
 Definition arr2_close (a b : arr2) : bool :=
   let sc := maxabs_q (m_dat b) in
   Nat.eqb (m_r a) (m_r b) && Nat.eqb (m_c a) (m_c b) &&
-  forallb (fun p => Qle_bool (Qabs (fst p - snd p)) (qtolR * (1 + sc))) (combine (m_dat a) (m_dat b)) &&
+  forallb (fun p => Qle_bool (Qabs (fst p - snd p)) (qtolR * sc)) (combine (m_dat a) (m_dat b)) &&
   Nat.eqb (length (m_dat a)) (length (m_dat b)).
 
 (* state: modes, remaining oracle answers, conjunction of the argument checks so far *)
